@@ -13,8 +13,10 @@ from readers_common import run_parallel, counterexample  # noqa: E402
 def run(ctx):
     quick = ctx.quick
     # 1. TLC: the intended writer/reader satisfies the normative operators on the whole boundary domain;
-    #    the as-is transcription is refuted three times (packets, header, reader); the as-is run without
-    #    normative invariants emits the vectors with the transcription's predictions.
+    #    the transcription of the pinned code (Impl "asis") is refuted for packets and for the reader, the
+    #    transcription of the code as it is now (Impl "current": c5e853e repaired those two, Header.Marshal
+    #    is unchanged) is refuted for the header; the "current" run without normative invariants emits the
+    #    vectors with the transcription's predictions.
     jobs = [("mc", "RtpDump", "RtpDump_MC" if quick else "RtpDump_MCT", dict(workers=4 if quick else 8, timeout=500)),
             ("asisW", "RtpDump", "RtpDump_asisW", dict(workers=1, timeout=300)),
             ("asisH", "RtpDump", "RtpDump_asisH", dict(workers=1, timeout=300)),
@@ -36,8 +38,8 @@ def run(ctx):
         inv, vec = counterexample(a)
         cex[name] = {"rc": a.rc, "violated": inv, "vector": vec}
         if a.rc == 0:
-            ctx.notes.append("model drift: as-is model %s no longer refuted by TLC" % name)
-        ctx.log("TLC as-is %s: rc=%s violated=%s" % (name, a.rc, inv))
+            ctx.notes.append("model drift: model %s no longer refuted by TLC" % name)
+        ctx.log("TLC %s %s: rc=%s violated=%s" % ("current" if name == "asisH" else "as-is (pinned)", name, a.rc, inv))
     ctx.cov["asis_counterexamples"] = cex
     emit = r["emit"]
     if emit.rc != 0:
@@ -106,8 +108,8 @@ def run(ctx):
     ctx.cov["model_drift_vectors"] = drift
     if drift_samples:
         ctx.cov["model_drift_samples"] = drift_samples
-        ctx.notes.append("model drift: %d vectors where pion differs from the as-is transcription (not a verdict)" % drift)
-    ctx.log("as-is transcription vs pion: %d of %d vectors differ" % (drift, len(cases)))
+        ctx.notes.append("model drift: %d vectors where pion differs from the transcription of the current code (not a verdict)" % drift)
+    ctx.log("transcription of the current code vs pion: %d of %d vectors differ" % (drift, len(cases)))
 
     preds = ctx.cov["predicates"]
     needed = ["AcceptsRepresentable", "RefusesUnrepresentable", "RoundTripHeader", "RoundTripPackets",
